@@ -25,7 +25,7 @@ class Row:
 
 
 def rows_from_cfg(cfg, outcome_of, stop_at=None, max_paths=50000,
-                  start=None, include=None):
+                  start=None, include=None, with_stmts=False):
     """Enumerate acyclic paths (loops 0/1) and turn them into rows.
 
     outcome_of(node) -> outcome or None: called for every node on the path;
@@ -60,10 +60,16 @@ def rows_from_cfg(cfg, outcome_of, stop_at=None, max_paths=50000,
                 atoms.append((node, lab == "T"))
             elif node.kind == "switch":
                 atoms.append((node, lab))
+            elif with_stmts and node.kind == "stmt" and node.ast is not None:
+                # the statements between the tests, for interpreters that
+                # track locals along the row (truth None = not a test)
+                atoms.append((node, None))
             lines.append(node.line)
             go(tgt, atoms, lines, counts)
             lines.pop()
-            if node.kind in ("cond", "switch"):
+            if node.kind in ("cond", "switch") or (
+                    with_stmts and node.kind == "stmt"
+                    and node.ast is not None):
                 atoms.pop()
             counts[tgt] = c
     go(start, [], [], {start: 1})
